@@ -72,6 +72,27 @@ static void *client(void *x){ (void)x; for(int r=0;r<rounds && !viol;r++){ int k
     // barriers on the chained queues too: width that an apply failed to give back on an upper level shows as a barrier (and
     // everything behind it) that never runs
     if(rnd()%4==0){ atomic_fetch_add(&chain_barriers,1); dispatch_barrier_async(rnd()%2?QSS:QCC,^{ atomic_fetch_add(&chain_barriers_ran,1); }); } } atomic_fetch_add(&clients_done,1); while(!atomic_load(&cl_release)) usleep(200);   /* stay alive while the pinger may still signal this thread */ return NULL; }
+// ---- width-limited chains: an apply on a concurrent queue behaves as non-barrier items of that queue, so no more of its invocations
+// run at once than the narrowest queue of the target chain admits (every level grants the apply only part of what it asks for, and
+// what each level did not grant has to stay subtracted).
+extern void dispatch_queue_set_width(dispatch_queue_t dq, long width);
+struct nw { _Atomic long running, peak, finished; _Atomic unsigned char *cnt; size_t n; };
+static void nw_work(void *c, size_t i){ struct nw *a=c; atomic_fetch_add(&invocations,1); if(i>=a->n){ fail("work invoked with an index outside 0..n-1 (width-limited chain): index/n",(long)i,(long)a->n,0); return; }
+  if(atomic_fetch_add(&a->cnt[i],1)) fail("index invoked more than once (width-limited chain): index/n",(long)i,(long)a->n,0);
+  long r=atomic_fetch_add(&a->running,1)+1; long p=atomic_load(&a->peak); while(r>p && !atomic_compare_exchange_weak(&a->peak,&p,r)){}
+  usleep(300); atomic_fetch_sub(&a->running,1); atomic_fetch_add(&a->finished,1); }
+static void narrow_chains(void){ static const int shapes[][3]={{8,4,0},{6,3,0},{12,5,2},{4,8,0},{10,6,3},{3,0,0}};   // widths top / middle / bottom (0 = level absent)
+  for(unsigned k=0;k<sizeof shapes/sizeof *shapes && !viol;k++){ dispatch_queue_t lv[3]={0,0,0}; int narrowest=1<<30; dispatch_queue_t below=NULL;
+    for(int l=2;l>=0;l--){ int w=shapes[k][l]; if(!w) continue; lv[l]= below ? dispatch_queue_create_with_target("nw",DISPATCH_QUEUE_CONCURRENT,below) : dispatch_queue_create("nw",DISPATCH_QUEUE_CONCURRENT);
+      dispatch_queue_set_width(lv[l],w); dispatch_barrier_sync(lv[l],^{}); if(w<narrowest) narrowest=w; below=lv[l]; }
+    for(int rep=0; rep<2 && !viol; rep++){ struct nw a; memset(&a,0,sizeof a); a.n=(size_t)(40+rnd()%60); a.cnt=calloc(a.n+1,1);
+      dispatch_apply_f(a.n,lv[0],&a,nw_work);
+      if(atomic_load(&a.finished)!=(long)a.n) fail("dispatch_apply on a width-limited chain returned before all invocations had finished: finished/n/shape",atomic_load(&a.finished),(long)a.n,(long)k);
+      for(size_t i=0;i<a.n && !viol;i++) if(a.cnt[i]!=1) fail("index not invoked exactly once (width-limited chain): index/count/shape",(long)i,a.cnt[i],(long)k);
+      if(atomic_load(&a.peak)>narrowest) fail("more invocations of one dispatch_apply ran at once than the narrowest queue of its target chain admits non-barrier items: peak/narrowest width/shape",atomic_load(&a.peak),narrowest,(long)k);
+      free((void*)a.cnt); }
+    for(int l=0;l<3;l++) if(lv[l]){ __block atomic_int ran=0; atomic_int *rp=&ran; dispatch_barrier_async(lv[l],^{ atomic_store(rp,1); }); for(int w=0; w<5000 && !atomic_load(&ran); w++) usleep(1000);
+      if(!atomic_load(&ran) && !viol) fail("a barrier item submitted to a width-limited queue after dispatch_apply calls through it never ran (5 s): shape/level",(long)k,l,0); } } }
 int main(int argc,char**argv){ seed=argc>1?strtoull(argv[1],0,0):1; rounds=argc>2?atoi(argv[2]):40; ncpu=(int)sysconf(_SC_NPROCESSORS_ONLN);
   evs=calloc(MAXEV,sizeof *evs);
   QS=dispatch_queue_create("s",NULL); QC=dispatch_queue_create("c",DISPATCH_QUEUE_CONCURRENT);
@@ -80,6 +101,7 @@ int main(int argc,char**argv){ seed=argc>1?strtoull(argv[1],0,0):1; rounds=argc>
   // a concurrent queue whose target is the thread-bound main queue, which the main thread drains the way a run loop does
   QCM=dispatch_queue_create_with_target("cm",DISPATCH_QUEUE_CONCURRENT,dispatch_get_main_queue()); int mh=_dispatch_get_main_queue_handle_4CF();
   _dispatch_verif_yield_cb=ycb; _dispatch_verif_atomic_cb=cb;
+  narrow_chains();
   struct sigaction sa; memset(&sa,0,sizeof sa); sa.sa_handler=on_usr1; sigaction(SIGUSR1,&sa,0);
   pthread_t th[4]; int nt=3; for(int i=0;i<nt;i++){ pthread_create(&th[i],0,client,0); cl_th[i]=th[i]; } cl_n=nt;
   pthread_t pg; pthread_create(&pg,0,pinger,0);
